@@ -3,6 +3,8 @@
    participant:  L<mode>:<addr>.<namehex>,<addr>.<namehex>,...   library instance, one entry per device
                  F:<addr>.<namehex>                               foreign ISO 11783-5 reference node
    ops: start i | join i | step i [k] | tick dt | cmd <namehex> <addr> [toolsrc] | ack i | restart i | raw <idhex> <len> <8 bytes hex>
+        drain   (macro: while some started participant has a pending frame, the lowest such participant processes its oldest one;
+                 every delivery is announced by dl:<i> in the output; at most 2000 deliveries)
    A second line type explores every schedule of the MODEL network (search, not proof):
      EXPL t0=<ms> ticks=<n> depth=<n> | participants | prefix ops
 *)
@@ -26,7 +28,8 @@ let parse_part w64 t0 tok =
     let ndev = List.length ents in
     let devs = List.map (fun (a, nm) -> mk_dev w64 (zi (a land 255)) nm []) ents in
     let pc = { sf0 = None; sf1 = None; fp0 = None; fp1 = None } in
-    let rcfg = { c_only_known = false; c_iso_handler = None; c_prodinfo = def_prodinfo; c_confinfo = def_confinfo; c_hb_on = true } in
+    let rcfg = { c_only_known = false; c_iso_handler = None; c_prodinfo = def_prodinfo; c_confinfo = def_confinfo; c_hb_on = true;
+                 c_inst1 = []; c_inst2 = []; c_manuf = str_bytes "NMEA2000 library, https://github.com/ttlappalainen/NMEA2000"; c_inst_changed = false } in
     PLib (cold_node w64 (zi mode) t0 (zi (40 * ndev)) (zi 5) pc devs (List.init ndev (fun _ -> [])) rcfg)
   end
 
@@ -83,11 +86,12 @@ let unique_ok nt =
   List.length (List.sort_uniq compare (List.map int_of_z ops)) = List.length ops
 let explore w64 nt0 max_ticks max_depth =
   let seen = Hashtbl.create 4096 in
-  let states = ref 0 and terminals = ref 0 and bad = ref 0 and cut = ref 0 and maxd = ref 0 and witness = ref "" in
+  let states = ref 0 and terminals = ref 0 and bad = ref 0 and cut = ref 0 and maxd = ref 0 and witness = ref "" and cycles = ref 0 in
   let rec go nt ticks depth path =
     let key = (Marshal.to_string nt [], ticks) in
+    (match Hashtbl.find_opt seen key with Some true -> incr cycles | _ -> ());
     if not (Hashtbl.mem seen key) then begin
-      Hashtbl.add seen key (); incr states;
+      Hashtbl.add seen key true; incr states;
       if depth > !maxd then maxd := depth;
       (* moves: every distinct pending frame of every participant; a tick of one claim window *)
       let moves = ref [] in
@@ -100,10 +104,14 @@ let explore w64 nt0 max_ticks max_depth =
         incr terminals;
         if not (unique_ok nt) then begin incr bad; if !witness = "" then witness := String.concat " ; " (List.rev path) end
       end else if depth >= max_depth then incr cut
-      else List.iter (fun (o, s, tcost) -> let (nt', _) = net_step gf_none nt o in go nt' (ticks + tcost) (depth + 1) (s :: path)) !moves
+      else List.iter (fun (o, s, tcost) -> let (nt', _) = net_step gf_none nt o in go nt' (ticks + tcost) (depth + 1) (s :: path)) !moves;
+      Hashtbl.replace seen key false
     end in
   go nt0 0 0 [];
-  Printf.printf "expl states=%d terminals=%d nonunique=%d cut=%d maxdepth=%d%s" !states !terminals !bad !cut !maxd (if !witness = "" then "" else " witness=[" ^ !witness ^ "]")
+  Printf.printf "expl states=%d terminals=%d nonunique=%d cut=%d cycles=%d maxdepth=%d%s" !states !terminals !bad !cut !cycles !maxd (if !witness = "" then "" else " witness=[" ^ !witness ^ "]")
+
+let first_pending nt =
+  let rec go i = function [] -> None | p :: r -> if p.p_on && p.p_inbox <> [] then Some i else go (i+1) r in go 0 nt.nt_parts
 
 let () =
   let w64 = (Array.length Sys.argv < 2) || Sys.argv.(1) <> "w32" in
@@ -129,7 +137,17 @@ let () =
              | Some o -> let (nt', evs) = net_step gf_none !nt o in
                List.iter (fun e -> Buffer.add_string b (ev_s e)) evs;
                Buffer.add_string b (changes !nt nt'); nt := nt'
-             | None -> if split s <> [] then Buffer.add_string b "badop ") ops opstrs;
+             | None ->
+               if split s = ["drain"] then begin
+                 let fuel = ref 2000 in
+                 let rec loop () = match first_pending !nt with
+                   | Some i when !fuel > 0 -> decr fuel;
+                     Buffer.add_string b (Printf.sprintf "dl:%d " i);
+                     let (nt', evs) = net_step gf_none !nt (NStep (zi i, zi 0)) in
+                     List.iter (fun e -> Buffer.add_string b (ev_s e)) evs;
+                     Buffer.add_string b (changes !nt nt'); nt := nt'; loop ()
+                   | _ -> () in loop ()
+               end else if split s <> [] then Buffer.add_string b "badop ") ops opstrs;
          if any_oob !nt then print_string "oob" else begin print_string (Buffer.contents b); print_string "|"; print_string (dump w64 !nt) end
        end
      | _ -> print_string "badcase");
